@@ -572,8 +572,11 @@ def oracle(case, obs):
                 if e[7] < maxclk:
                     off = True
                 maxclk = max(maxclk, e[7])
-            if e[0] == "enter" and default is not None and e[1] == default and (e[-1] > 0 or kind == "engage"):
-                off = True       # an explicit transition into the default state (by a state function or by engage(initial_state=..))
+            if e[0] == "enter" and default is not None and e[1] == default:
+                # an explicit transition into the default state: by a state function, by engage(initial_state=..), or because a
+                # timed state names the default state as its next_state (the default state then runs as the current state of an
+                # executing machine, which the properties do not talk about)
+                off = True
             if e[0] in ("enter", "done") and e[-1] > 0 and not e[-2]:
                 off = True       # in-state action while the machine is not executing
         if off:
